@@ -333,6 +333,16 @@ func vkBehaviours() []vkBehaviour {
 		vkValidRefB("glue-tld-host", 0, func(c *vkBCtx, h string) ([]dns.RR, []dns.RR) {
 			return []dns.RR{vkNS(c.sub, "ns.t.")}, []dns.RR{vkA("ns.t.", vkPoisonA)}
 		}),
+		// names that END WITH the delegating zone's text but are not inside it (no label boundary):
+		// "nsz.t." vs zone "z.t.", and a one-label-deeper variant
+		vkValidRefB("glue-lookalike-suffix", 0, func(c *vkBCtx, h string) ([]dns.RR, []dns.RR) {
+			look := "ns" + c.zone // e.g. zone z.t. -> nsz.t. (owned by the TLD, not by z.t.)
+			return []dns.RR{vkNS(c.sub, look)}, []dns.RR{vkA(look, vkPoisonA)}
+		}),
+		vkValidRefB("glue-lookalike-suffix-deep", 0, func(c *vkBCtx, h string) ([]dns.RR, []dns.RR) {
+			look := "ns.x" + c.zone // ns.xz.t.
+			return []dns.RR{vkNS(c.sub, look)}, []dns.RR{vkA(look, vkPoisonA)}
+		}),
 		vkValidRefB("glue-two-ns-one-foreign", 1, func(c *vkBCtx, h string) ([]dns.RR, []dns.RR) {
 			return []dns.RR{vkNS(c.sub, h), vkNS(c.sub, "ns.v.t.")}, []dns.RR{vkA(h, c.zaddr), vkA("ns.v.t.", vkPoisonA)}
 		}),
